@@ -6,6 +6,7 @@ open Amqp Amqp.Rpc Amqp.ChanErr
 theorem gen_defers : Gen.RpcWait.defersMessageError = true := by decide
 theorem gen_requires_open : Gen.RpcWait.deferralRequiresOpen = true := by decide
 theorem gen_front : Gen.ChanErr.closeReasonAtFront = true := by decide
+theorem gen_keeps : Gen.RpcWait.keepsDeferredError = true := by decide
 
 /-- connection and channel open, no connection error, only returned-message errors queued -/
 structure Quiet (e : E) : Prop where
@@ -30,7 +31,7 @@ theorem waitCheck_quiet (e : E) (h : Quiet e) : waitCheck e = (none, e) := by
     rcases x with _ | _ | c
     · simp [Err.isMsg] at hx
     · simp [Err.isMsg] at hx
-    · simp only [chanCheckExceptions, hc, h.ch, if_true, gen_defers, gen_requires_open, Bool.true_and]
+    · simp only [chanCheckExceptions, hc, h.ch, if_true, gen_defers, gen_requires_open, gen_keeps, Bool.true_and]
       simp only [ne_eq, not_true_eq_false, decide_false, Bool.false_eq_true, if_false]
       have hch := h.ch
       cases e; simp_all
